@@ -3,6 +3,7 @@ package wal
 import (
 	"bufio"
 	"encoding/binary"
+	"errors"
 	"fmt"
 	"hash/crc32"
 	"io"
@@ -44,9 +45,11 @@ func (r *Reader) ReadEntry() (*Entry, error) {
 		record, err := r.readRecord()
 		if err != nil {
 			if err == io.EOF {
-				// If we have fragments, this is unexpected EOF
+				// If we have fragments, the entry was cut between two of its records
 				if len(r.fragments) > 0 {
-					return nil, fmt.Errorf("unexpected EOF with %d fragments", len(r.fragments))
+					n := len(r.fragments)
+					r.fragments = r.fragments[:0]
+					return nil, fmt.Errorf("unexpected EOF with %d fragments: %w", n, io.ErrUnexpectedEOF)
 				}
 				return nil, io.EOF
 			}
@@ -56,11 +59,24 @@ func (r *Reader) ReadEntry() (*Entry, error) {
 		// Process based on record type
 		switch record.recordType {
 		case RecordTypeFull:
+			// A full record can never appear inside a fragmented entry. The record type is not
+			// covered by the checksum, so this is how a damaged type byte shows up.
+			if len(r.fragments) > 0 {
+				r.fragments = r.fragments[:0]
+				return nil, fmt.Errorf("%w: full record inside a fragmented entry", ErrCorruptRecord)
+			}
 			// Single record, parse directly
 			return r.parseEntryData(record.data)
 
 		case RecordTypeFirst:
 			// Start of a fragmented entry
+			if len(r.fragments) > 0 {
+				r.fragments = r.fragments[:0]
+				return nil, fmt.Errorf("%w: first fragment inside a fragmented entry", ErrCorruptRecord)
+			}
+			if len(record.data) == 0 {
+				return nil, fmt.Errorf("%w: empty first fragment", ErrCorruptRecord)
+			}
 			r.fragments = append(r.fragments, record.data)
 			r.currType = record.data[0] // Save the operation type
 
@@ -296,32 +312,12 @@ func ReplayWALFile(path string, handler EntryHandler) (*RecoveryStats, error) {
 				break
 			}
 
-			// Check if this is a corruption error
-			if strings.Contains(err.Error(), "corrupt") ||
-				strings.Contains(err.Error(), "invalid") {
-				// Skip this corrupted entry
+			// A record cut short by a crash (torn final write) or a damaged record ends the
+			// usable part of this file: records are not aligned to any boundary, so nothing
+			// behind the damage can be told apart from garbage. Everything read so far is kept.
+			if isDamage(err) {
 				stats.EntriesSkipped++
-
-				// If we've seen too many corrupted entries in a row, give up on this file
-				if stats.EntriesSkipped > 5 && stats.EntriesProcessed == 0 {
-					return stats, fmt.Errorf("too many corrupted entries at start of file %s", path)
-				}
-
-				// Try to recover by scanning ahead
-				// This is a very basic recovery mechanism that works by reading bytes
-				// until we find what looks like a valid header
-				recoverErr := recoverFromCorruption(reader)
-				if recoverErr != nil {
-					if recoverErr == io.EOF {
-						// Reached the end during recovery
-						break
-					}
-					// Couldn't recover
-					return stats, fmt.Errorf("failed to recover from corruption in %s: %w", path, recoverErr)
-				}
-
-				// Successfully recovered, continue to the next entry
-				continue
+				break
 			}
 
 			// For other errors, fail the replay
@@ -339,22 +335,26 @@ func ReplayWALFile(path string, handler EntryHandler) (*RecoveryStats, error) {
 	return stats, nil
 }
 
-// recoverFromCorruption attempts to recover from a corrupted record by scanning ahead
-func recoverFromCorruption(reader *Reader) error {
-	// Create a small buffer to read bytes one at a time
-	buf := make([]byte, 1)
+// isDamage reports whether a read error means the log is torn or corrupted at this point
+// (as opposed to an I/O failure).
+func isDamage(err error) bool {
+	return errors.Is(err, io.ErrUnexpectedEOF) ||
+		strings.Contains(err.Error(), "corrupt") ||
+		strings.Contains(err.Error(), "invalid")
+}
 
-	// Read up to 32KB ahead looking for a valid header
-	for i := 0; i < 32*1024; i++ {
-		_, err := reader.reader.Read(buf)
-		if err != nil {
-			return err
+// IsCleanWALFile reports whether every byte of the file belongs to a complete, valid entry.
+func IsCleanWALFile(path string) bool {
+	reader, err := OpenReader(path)
+	if err != nil {
+		return false
+	}
+	defer reader.Close()
+	for {
+		if _, err := reader.ReadEntry(); err != nil {
+			return err == io.EOF
 		}
 	}
-
-	// At this point, either we're at a valid position or we've skipped ahead
-	// Let the next ReadEntry attempt to parse from this position
-	return nil
 }
 
 // ReplayWALDir replays all WAL files in the given directory in order
